@@ -8,6 +8,9 @@ import (
 	"fmt"
 	"io"
 	"log/slog"
+	"net"
+	"net/url"
+	"os"
 	"strings"
 	"sync"
 	"testing"
@@ -191,8 +194,27 @@ func (w *c25World) fetch(version int16, parts []c25Part) ([]byte, error) {
 }
 
 type c25Feed struct {
-	LatMs int64 `json:"lat_ms"`
-	Err   bool  `json:"err"`
+	LatMs int64  `json:"lat_ms"`
+	Err   bool   `json:"err"`
+	Kind  string `json:"err_kind,omitempty"`
+}
+
+// c25ErrKinds: the ways an S3 call fails. The timeout-style ones are what a black-holed or
+// overloaded S3 produces (the call ends by the client's own deadline, after a LONG wait).
+var c25ErrKinds = []string{"plain-503", "wrapped-deadline-exceeded", "wrapped-canceled", "http-client-timeout", "net-io-timeout"}
+
+func c25MakeErr(kind string) error {
+	switch kind {
+	case "wrapped-deadline-exceeded":
+		return fmt.Errorf("upload segment: operation error S3: PutObject, %w", context.DeadlineExceeded)
+	case "wrapped-canceled":
+		return fmt.Errorf("upload segment: operation error S3: PutObject, %w", context.Canceled)
+	case "http-client-timeout":
+		return &url.Error{Op: "Put", URL: "https://s3.example/bucket/key", Err: fmt.Errorf("%w (Client.Timeout exceeded while awaiting headers)", context.DeadlineExceeded)}
+	case "net-io-timeout":
+		return &net.OpError{Op: "read", Net: "tcp", Err: os.ErrDeadlineExceeded}
+	}
+	return errors.New("503 SlowDown (injected)")
 }
 
 // c25CheckUnhealthy issues one produce and one fetch and applies the oracle for a
@@ -350,16 +372,23 @@ func TestVF_C25_Handler(t *testing.T) {
 		latCrit := latWarn * rapid.SampledFrom([]int64{2, 3, 6}).Draw(rt, "latCritFactor")
 		errWarn := rapid.IntRange(1, 10).Draw(rt, "errWarn/20")
 		errCrit := errWarn + rapid.IntRange(1, 20-errWarn).Draw(rt, "errCritExtra")
-		w.h.s3Health = broker.NewS3HealthMonitor(broker.S3HealthConfig{
+		hcfg := broker.S3HealthConfig{
 			Window:      time.Hour, // wall time cannot matter
 			LatencyWarn: time.Duration(latWarn) * time.Millisecond, LatencyCrit: time.Duration(latCrit) * time.Millisecond,
 			ErrorWarn: float64(errWarn) / 20, ErrorCrit: float64(errCrit) / 20,
-		})
+		}
+		w.h.s3Health = broker.NewS3HealthMonitor(hcfg)
+		// the rating depends only on error rate and latency: two reference monitors get the
+		// same outcomes directly -- "same": every failure as a plain error with the same
+		// latency; "better": every failure as an instant plain error (pointwise lower latency)
+		same, better := broker.NewS3HealthMonitor(hcfg), broker.NewS3HealthMonitor(hcfg)
+		kindBias := rapid.SampledFrom(c25ErrKinds).Draw(rt, "errKindBias")
 		lats := []int64{0, 1, latWarn - 1, latWarn, latWarn + 1, latCrit - 1, latCrit, latCrit + 1, 5 * latCrit}
 		errBias := rapid.SampledFrom([]int{0, 0, 2, 5, 8, 10}).Draw(rt, "errBias")
 		latBias := rapid.IntRange(0, len(lats)-1).Draw(rt, "latBias")
 		n := rapid.IntRange(0, 25).Draw(rt, "n")
 		feed := make([]c25Feed, n)
+		timeouts := 0
 		injected := errors.New("injected s3 failure")
 		for i := range feed {
 			f := c25Feed{Err: rapid.IntRange(0, 9).Draw(rt, "errRoll") < errBias}
@@ -371,14 +400,39 @@ func TestVF_C25_Handler(t *testing.T) {
 			if f.LatMs < 0 {
 				f.LatMs = 0
 			}
-			feed[i] = f
-			var e error
+			var e, plain error
+			betterLat := f.LatMs
 			if f.Err {
-				e = injected
+				f.Kind = kindBias
+				if rapid.IntRange(0, 2).Draw(rt, "otherKind") == 0 {
+					f.Kind = rapid.SampledFrom(c25ErrKinds).Draw(rt, "errKind")
+				}
+				if f.Kind != "plain-503" {
+					timeouts++
+					if rapid.Bool().Draw(rt, "timeoutIsSlow") {
+						f.LatMs = 5 * latCrit // gave up after the client deadline
+					}
+				}
+				e, plain = c25MakeErr(f.Kind), injected
+				betterLat = 0
 			}
-			w.h.recordS3Op([]string{"upload", "download", "list"}[i%3], time.Duration(f.LatMs)*time.Millisecond, e)
+			feed[i] = f
+			op := []string{"upload", "download", "list"}[i%3]
+			w.h.recordS3Op(op, time.Duration(f.LatMs)*time.Millisecond, e)
+			same.RecordOperation(op, time.Duration(f.LatMs)*time.Millisecond, plain)
+			better.RecordOperation(op, time.Duration(betterLat)*time.Millisecond, plain)
 		}
 		state := w.h.s3Health.State()
+		if timeouts > 0 {
+			st.Class("history-with-timeout-style-failures")
+		}
+		rank := map[broker.S3HealthState]int{broker.S3StateHealthy: 0, broker.S3StateDegraded: 1, broker.S3StateUnavailable: 2}
+		if s := same.State(); s != state {
+			rt.Fatalf("outcomes fed through handler.recordS3Op rate S3 %q, the same (latency, ok|error) outcomes rate %q: the rating depends on something else than error rate and latency (the KIND of failure)\nthresholds lat %d/%d ms err %d/20 %d/20, fed %+v", state, s, latWarn, latCrit, errWarn, errCrit, feed)
+		}
+		if b := better.State(); rank[state] < rank[b] {
+			rt.Fatalf("failures that took LONGER (timeouts) rate S3 %q, better than %q for the same failures answered instantly\nthresholds lat %d/%d ms err %d/20 %d/20, fed %+v", state, b, latWarn, latCrit, errWarn, errCrit, feed)
+		}
 		partAlphabet := []c25Part{{"orders", 0}, {"payments", 0}, {"payments", 1}, {"nope", 0}}
 		if !w.h.autoCreateTopics {
 			// a missing partition of an existing topic + auto-create makes getPartitionLog spin
